@@ -159,9 +159,18 @@ def step (_ : Unit) (op impl : String) : Unit × DrvOut :=
     let rk := parseStage (get kv "rk")
     let mk := parseStage (get kv "mk")
     let envKeys : List Bytes := listOf (get kv "env") fun it => hexS ((it.splitOn ":").headD "")
-    let nullNames : List Bytes := listOf (get kv "np") hexS
     let panicSpec := if impl == "panic" then "FAIL Load panics" else "ok"
-    let knownEnv := "KNOWN env-null-path Load panics when an environment variable addresses a path whose value is null in the file"
+    let knownEnv : String := "KNOWN env-null-path Load panics when an environment variable addresses a path whose value is null in the file"
+    let envKVs : List (Bytes × Bytes) := listOf (get kv "env") fun it =>
+      match it.splitOn ":" with
+      | [a, b] => (hexS a, hexS b)
+      | _ => ([], [])
+    let nullNames : List Bytes := listOf (get kv "np") hexS
+    -- the two decidable classes of environment-induced panics
+    let envClass : Option String :=
+      if envHitsNull nullNames envKeys then some knownEnv
+      else if envEmptyList envKVs then some "KNOWN env-empty-list Load panics when an environment variable with an empty value addresses an optional list parameter that the file does not set"
+      else none
     match loadDecrypt false rk mk with
     | .panic =>
       if impl == "panic" then ((), { model := "panic", spec := "KNOWN short-ciphertext Load panics when MTX_CONFKEY is set and the file decodes to fewer than 24 bytes" })
@@ -170,13 +179,15 @@ def step (_ : Unit) (op impl : String) : Unit × DrvOut :=
     | .ok _ =>
       match front with
       | ["E"] =>
-        -- (Go map order decides whether an unrelated env error or the nil-entry panic comes first)
-        if envHitsNull nullNames envKeys && impl == "panic" then ((), { model := "panic", spec := knownEnv })
-        else ((), { model := "err", spec := panicSpec })
+        -- (Go map order decides whether an unrelated env error or the panic comes first)
+        match envClass, impl == "panic" with
+        | some known, true => ((), { model := "panic", spec := known })
+        | _, _ => ((), { model := "err", spec := panicSpec })
       | ["P"] =>
-        if envHitsNull nullNames envKeys then
-          if impl == "err" then ((), { model := "err" }) else ((), { model := "panic", spec := if impl == "panic" then knownEnv else "ok" })
-        else ((), { model := "panic", spec := "FAIL Load panics while reading the file / environment" })
+        match envClass with
+        | some known =>
+          if impl == "err" then ((), { model := "err" }) else ((), { model := "panic", spec := if impl == "panic" then known else "ok" })
+        | none => ((), { model := "panic", spec := "FAIL Load panics while reading the file / environment" })
       | _ =>
         match parseView front with
         | none => ((), { model := "bad-op" })
